@@ -195,6 +195,8 @@ pub struct ScriptedWriter {
     pub fcalls: usize,
     pub budget: usize,
     pub log: Log,
+    /// implement write_vectored natively (accepts a short count ACROSS the slices, like writev on a pipe)
+    pub vectored: bool,
 }
 
 impl ScriptedWriter {
@@ -208,6 +210,7 @@ impl ScriptedWriter {
             fcalls: 0,
             budget: 1 << 22,
             log: log.clone(),
+            vectored: false,
         }
     }
     pub fn with_fault(mut self, call: usize, f: Fault) -> Self {
@@ -250,6 +253,49 @@ impl Write for ScriptedWriter {
         let total = at + n;
         self.log.0.borrow_mut().written = total;
         self.log.push(Op::Write, buf.len(), Res::N(n), total, at);
+        Ok(n)
+    }
+
+    fn write_vectored(&mut self, bufs: &[io::IoSlice<'_>]) -> io::Result<usize> {
+        if !self.vectored {
+            // what std's default does: forward the first non-empty slice
+            let b = bufs.iter().find(|b| !b.is_empty()).map(|b| &**b).unwrap_or(&[][..]);
+            return self.write(b);
+        }
+        let call = self.wcalls;
+        self.wcalls += 1;
+        let at = self.out.borrow().len();
+        let total: usize = bufs.iter().map(|b| b.len()).sum();
+        if call >= self.budget {
+            self.log.0.borrow_mut().budget_hit = true;
+            self.log.push(Op::Write, total, Res::Budget, at, at);
+            return Err(io::Error::new(ErrorKind::Other, "kmon: write call budget exceeded"));
+        }
+        if let Some((_, f)) = self.faults.iter().find(|(c, _)| *c == call) {
+            match f {
+                Fault::Kind(k) => {
+                    self.log.push(Op::Write, total, Res::Err(*k), at, at);
+                    return Err(io::Error::new(*k, "kmon: injected write fault"));
+                }
+                Fault::Zero => {
+                    self.log.push(Op::Write, total, Res::N(0), at, at);
+                    return Ok(0);
+                }
+            }
+        }
+        let mut left = if total == 0 { 0 } else { self.sched.at(call).min(total) };
+        let n = left;
+        for b in bufs {
+            if left == 0 {
+                break;
+            }
+            let k = left.min(b.len());
+            self.out.borrow_mut().extend_from_slice(&b[..k]);
+            left -= k;
+        }
+        let newlen = at + n;
+        self.log.0.borrow_mut().written = newlen;
+        self.log.push(Op::Write, total, Res::N(n), newlen, at);
         Ok(n)
     }
 
